@@ -526,10 +526,10 @@ def check_compressed_axes(ndim, compressed_axes):
         raise ValueError("compressed_axes must be an iterable")
     if len(compressed_axes) == ndim:
         raise ValueError("cannot compress all axes")
-    if not np.array_equal(list(set(compressed_axes)), compressed_axes):
-        raise ValueError("axes must be sorted without repeats")
     if not all(isinstance(a, Integral) for a in compressed_axes):
         raise ValueError("axes must be represented with integers")
+    if not np.array_equal(sorted(set(compressed_axes)), compressed_axes):
+        raise ValueError("axes must be sorted without repeats")
     if min(compressed_axes) < 0 or max(compressed_axes) >= ndim:
         raise ValueError("axis out of range")
 
